@@ -219,7 +219,11 @@ class WSGIContainer:
             "REQUEST_METHOD": request.method,
             "SCRIPT_NAME": "",
             "PATH_INFO": to_wsgi_str(
-                escape.url_unescape(request.path, encoding=None, plus=False)
+                # request.path holds the request line's bytes decoded as latin1;
+                # unquoting a str would re-encode non-ASCII characters as utf-8.
+                escape.url_unescape(
+                    request.path.encode("latin1"), encoding=None, plus=False
+                )
             ),
             "QUERY_STRING": request.query,
             "REMOTE_ADDR": request.remote_ip,
